@@ -1400,5 +1400,56 @@ var errAtomRe = regexpMust(`@\d+(#\d+)? [=!]= nil\)$`)
 // with X by equivalence, so an extra conjunct is as visible as a missing one.
 func (c *Ctx) guardsBeyondErrors(fn *ssa.Function, b *ssa.BasicBlock) dnf {
 	pc := c.PC(fn)
-	return dropAtoms(pc.canonOf(pc.At(b)), func(a string) bool { return errAtomRe.MatchString(a) })
+	// the error values this function tests
+	errTerms := map[string]bool{}
+	instrs(fn, func(in ssa.Instruction) {
+		if ifi, ok := in.(*ssa.If); ok {
+			if ev, _, ok := isErrNilTest(ifi.Cond); ok {
+				errTerms[c.term(fn, ev)] = true
+			}
+		}
+	})
+	return dropAtoms(pc.canonOf(pc.At(b)), func(a string) bool {
+		if !errAtomRe.MatchString(a) {
+			return false
+		}
+		t := strings.TrimPrefix(a, "(")
+		t = strings.TrimSuffix(strings.TrimSuffix(t, " == nil)"), " != nil)")
+		return errTerms[t]
+	})
+}
+
+// dnfEffEquiv: (d ∧ ¬(l1 ∨ l2 ∨ …)) ≡ want, by truth table. Used for "the store that counts":
+// a store under d whose value is overwritten by later stores under l_i is effective exactly
+// under d ∧ ¬∨l_i.
+func dnfEffEquiv(d dnf, later []dnf, want dnf) bool {
+	if d.unknown || want.unknown {
+		return false
+	}
+	all := append([]dnf{d, want}, later...)
+	for _, l := range later {
+		if l.unknown {
+			return false
+		}
+	}
+	atoms := dnfAtoms(all...)
+	if len(atoms) > 16 {
+		return false
+	}
+	for mask := 0; mask < 1<<uint(len(atoms)); mask++ {
+		asg := map[string]bool{}
+		for i, at := range atoms {
+			asg[at] = mask&(1<<uint(i)) != 0
+		}
+		eff := evalDNF(d, asg)
+		for _, l := range later {
+			if evalDNF(l, asg) {
+				eff = false
+			}
+		}
+		if eff != evalDNF(want, asg) {
+			return false
+		}
+	}
+	return true
 }
